@@ -1,12 +1,15 @@
 (** C15 — model of Molecule.get_fragment (grouped and order-preserving paths, with the at2fr / at2at index
     remap), of the charge / multiplicity validation of the sub-molecule (re-using the C05 model [fill]), of
     Molecule.nelectrons and of the pair terms of Molecule.nuclear_repulsion_energy (qcelemental/models/molecule.py).
-    Hand-written, in the code's order; tied to the implementation by harness/props/c15.py.
+    Hand-written, in the code's order; the defaults of the public entry points and the (charge, multiplicity) given to
+    ghost fragments come from Gen/FragGlue.v (regenerated from /repo on every run by harness/translate/fragglue.py, which
+    also checks the argument-normalising prelude, the overlap test, the totals and the constructor call); tied to the
+    implementation by harness/props/c15.py.
     Coordinates and masses are exact rationals; charges and multiplicities are integers (fractional charges are
     outside the model).  The square root in the repulsion energy is outside exact arithmetic: the model produces
     the list of terms (Zeff_i·Zeff_j, d²_ij) in the code's loop order. *)
 From Coq Require Import ZArith QArith List String Bool Arith.
-Require Import QV.Common.Outcome QV.Common.HFList QV.Model.ChgMult.
+Require Import QV.Common.Outcome QV.Common.HFList QV.Model.ChgMult QV.Gen.FragGlue.
 Import ListNotations.
 Open Scope Z_scope.
 
@@ -44,8 +47,8 @@ Definition frag_atoms (p : pmol) (flag : bool) (f : nat) : list atom :=
 Definition grouped (p : pmol) (real ghost : list nat) : cdict :=
   {| d_atoms := flat_map (frag_atoms p true) real ++ flat_map (frag_atoms p false) ghost;
      d_frags := blocks 0 (map (fun f => List.length (frag_at p f)) (real ++ ghost));
-     d_fc := map (fc_at p) real ++ map (fun _ => 0) ghost;
-     d_fm := map (fm_at p) real ++ map (fun _ => 1) ghost;
+     d_fc := map (fc_at p) real ++ map (fun _ => ghost_fc) ghost;
+     d_fm := map (fm_at p) real ++ map (fun _ => ghost_fm) ghost;
      d_cm := Some (zsum (map (fc_at p) real), hss (map (fm_at p) real)) |}.
 
 (* ---- group_fragments=False ---- *)
@@ -73,9 +76,9 @@ Definition ungrouped (p : pmol) (real ghost : list nat) : cdict :=
      d_frags := flat_map (fun e : nat * list nat => if chosen real ghost (fst e)
                                                     then [map (at2at p real ghost) (snd e)] else []) (enumerate (p_frags p));
      d_fc := flat_map (fun e : nat * list nat => if memb (fst e) real then [fc_at p (fst e)]
-                                                 else if memb (fst e) ghost then [0] else []) (enumerate (p_frags p));
+                                                 else if memb (fst e) ghost then [ghost_fc] else []) (enumerate (p_frags p));
      d_fm := flat_map (fun e : nat * list nat => if memb (fst e) real then [fm_at p (fst e)]
-                                                 else if memb (fst e) ghost then [1] else []) (enumerate (p_frags p));
+                                                 else if memb (fst e) ghost then [ghost_fm] else []) (enumerate (p_frags p));
      d_cm := None |}.
 
 (* the constructor arguments, or the exception raised before the constructor is reached *)
@@ -135,6 +138,31 @@ Fixpoint terms_from (prev l : list atom) : list (Z * Q) :=
 Definition nre_terms (p : pmol) : list (Z * Q) := terms_from [] (p_atoms p).
 Definition nre_terms_frag (p : pmol) (ifr : nat) : list (Z * Q) := terms_from [] (map (atom_at p) (frag_at p ifr)).
 
+(** ---- the public entry points with their argument glue ----
+    Molecule.get_fragment(real, ghost=None, orient=False, group_fragments=True): `real` / `ghost` may be one index or a
+    list, `ghost` may be absent; the result is what the constructor is handed together with the `orient` it is called with *)
+Inductive fsel := SInt (i : nat) | SList (l : list nat).
+Definition sel_list (s : fsel) : list nat := match s with SInt i => [i] | SList l => l end.
+Definition ghost_list (g : option fsel) : list nat := match g with None => [] | Some s => sel_list s end.
+Definition opt_or {A} (d : A) (o : option A) : A := match o with Some x => x | None => d end.
+Definition get_fragment_pub (p : pmol) (real : fsel) (ghost : option fsel) (orient group : option bool) : outcome (cdict * bool) :=
+  obind (get_fragment p (sel_list real) (ghost_list ghost) (opt_or gf_default_group group))
+        (fun d => Ok (d, opt_or gf_default_orient orient)).
+Definition sub_molecule_pub (p : pmol) (real : fsel) (ghost : option fsel) (group : option bool) : outcome pmol :=
+  sub_molecule p (sel_list real) (ghost_list ghost) (opt_or gf_default_group group).
+
+(* Molecule.nelectrons(ifr=None) / nuclear_repulsion_energy(ifr=None): self.fragments[ifr] raises IndexError *)
+Definition nelectrons_pub (p : pmol) (ifr : option nat) : outcome Z :=
+  match ifr with
+  | None => Ok (nelectrons p)
+  | Some k => if Nat.ltb k (List.length (p_frags p)) then Ok (nelectrons_frag p k) else Err PyIndexError
+  end.
+Definition nre_terms_pub (p : pmol) (ifr : option nat) : outcome (list (Z * Q)) :=
+  match ifr with
+  | None => Ok (nre_terms p)
+  | Some k => if Nat.ltb k (List.length (p_frags p)) then Ok (nre_terms_frag p k) else Err PyIndexError
+  end.
+
 (** ---- well-formedness of a parent: index lists in range and forming a partition of the atoms; one charge and
     one multiplicity per fragment ---- *)
 Definition wf_pmolb (p : pmol) : bool :=
@@ -173,10 +201,20 @@ Definition check_fragment (c : pmol * list nat * list nat * bool * outcome cdict
   outcome_eqb cdict_eqb (get_fragment p real ghost group) ed
   && outcome_eqb pmol_eqb (sub_molecule p real ghost group) em.
 
+(* the same through the public entry point: (parent, real, ghost, orient, group_fragments as passed (None = left to the default),
+   (constructor arguments, orient the constructor was called with) / exception, validated sub-molecule / exception) *)
+Definition check_fragment_pub (c : pmol * fsel * option fsel * option bool * option bool * outcome (cdict * bool) * outcome pmol) : bool :=
+  let '(p, real, ghost, orient, group, ed, em) := c in
+  outcome_eqb (fun a b => cdict_eqb (fst a) (fst b) && Bool.eqb (snd a) (snd b)) (get_fragment_pub p real ghost orient group) ed
+  && outcome_eqb pmol_eqb (sub_molecule_pub p real ghost group) em.
+
 (* (molecule, nelectrons(), [nelectrons(ifr)]) *)
 Definition check_electrons (c : pmol * Z * list Z) : bool :=
   let '(p, n, nf) := c in
-  (nelectrons p =? n) && list_eqb Z.eqb (map (nelectrons_frag p) (seq 0 (List.length (p_frags p)))) nf.
+  (nelectrons p =? n) && list_eqb Z.eqb (map (nelectrons_frag p) (seq 0 (List.length (p_frags p)))) nf
+  && outcome_eqb Z.eqb (nelectrons_pub p None) (Ok n)
+  && list_eqb (outcome_eqb Z.eqb) (map (fun k => nelectrons_pub p (Some k)) (seq 0 (List.length (p_frags p)))) (map (@Ok Z) nf)
+  && outcome_eqb Z.eqb (nelectrons_pub p (Some (List.length (p_frags p)))) (Err PyIndexError).
 
 (* nre: the implementation's float (as an exact rational) must lie within tol of sum w / sqrt(d2), the square
    root enclosed with integer square roots at 30 digits *)
